@@ -101,6 +101,8 @@ fn replay_case(idx: usize, case: &Value) -> Value {
     let v2 = c["v2"].as_str().unwrap_or("-");
     let bound2 = c["bound2"].as_bool().unwrap_or(true);
     let pair = v2 != "-";
+    // name of the second hole ("p" when the item uses one name for a term and a scope parameter)
+    let n2 = case["name2"].as_str().unwrap_or("q");
     let is_scope = pos.contains("scope") && !pair;
     let r = util::catch(|| -> Result<String, String> {
         let mut item = parse(pos, template).map_err(|e| format!("template does not parse: {e}"))?;
@@ -109,25 +111,25 @@ fn replay_case(idx: usize, case: &Value) -> Value {
             let res = if v2.starts_with("key_") {
                 let k = key_of(v2);
                 match (&mut item, strict) {
-                    (Item::R(x), true) => x.set_scope("q", k),
-                    (Item::R(x), false) => x.set_scope_lenient("q", k),
-                    (Item::C(x), true) => x.set_scope("q", k),
-                    (Item::C(x), false) => x.set_scope_lenient("q", k),
-                    (Item::P(x), true) => x.set_scope("q", k),
-                    (Item::P(x), false) => x.set_scope_lenient("q", k),
+                    (Item::R(x), true) => x.set_scope(n2, k),
+                    (Item::R(x), false) => x.set_scope_lenient(n2, k),
+                    (Item::C(x), true) => x.set_scope(n2, k),
+                    (Item::C(x), false) => x.set_scope_lenient(n2, k),
+                    (Item::P(x), true) => x.set_scope(n2, k),
+                    (Item::P(x), false) => x.set_scope_lenient(n2, k),
                     _ => unreachable!(),
                 }
             } else {
                 let (t, _) = value(v2);
                 match (&mut item, strict) {
-                    (Item::F(x), true) => x.set("q", t),
-                    (Item::F(x), false) => x.set_lenient("q", t),
-                    (Item::R(x), true) => x.set("q", t),
-                    (Item::R(x), false) => x.set_lenient("q", t),
-                    (Item::C(x), true) => x.set("q", t),
-                    (Item::C(x), false) => x.set_lenient("q", t),
-                    (Item::P(x), true) => x.set("q", t),
-                    (Item::P(x), false) => x.set_lenient("q", t),
+                    (Item::F(x), true) => x.set(n2, t),
+                    (Item::F(x), false) => x.set_lenient(n2, t),
+                    (Item::R(x), true) => x.set(n2, t),
+                    (Item::R(x), false) => x.set_lenient(n2, t),
+                    (Item::C(x), true) => x.set(n2, t),
+                    (Item::C(x), false) => x.set_lenient(n2, t),
+                    (Item::P(x), true) => x.set(n2, t),
+                    (Item::P(x), false) => x.set_lenient(n2, t),
                 }
             };
             if let Err(e) = res {
@@ -170,11 +172,12 @@ fn replay_case(idx: usize, case: &Value) -> Value {
             Ok(bytes) => {
                 // compare with the item written with the literal
                 let lit = if is_scope { key_of(v).print() } else { value(v).1 };
-                let mut src = template.replace("{p}", &lit);
+                let mut src = template.to_string();
                 if pair {
                     let lit2 = if v2.starts_with("key_") { key_of(v2).print() } else { value(v2).1 };
-                    src = src.replace("{q}", &lit2);
+                    src = src.replace("{q}", &lit2).replace("trusting {p}", &format!("trusting {lit2}"));
                 }
+                let src = src.replace("{p}", &lit);
                 let direct = parse(pos, &src).map_err(|e| format!("literal form does not parse: {src}: {e}"))?;
                 let want_bytes = add(direct).map_err(|e| format!("literal form not accepted: {src}: {e}"))?;
                 if bytes == want_bytes {
